@@ -249,6 +249,14 @@ func (e *Engine) model(st *State, fr *Frame, x *ssa.Call, callee *ssa.Function, 
 		st.addLE(K(0), V(r))
 		return StrV{Root: r, Lo: K(0), Hi: V(r)}
 	}
+	if e.Cfg.Hooks.OnScan != nil && name != "strings.IndexByte" && name != "strings.Index" {
+		for _, a := range args {
+			if sv, ok := a.(StrV); ok && sv.Const == nil {
+				e.curFr, e.curIns = fr, x
+				e.Cfg.Hooks.OnScan(e, st, fr, x, sv)
+			}
+		}
+	}
 	switch name {
 	case "strings.IndexByte", "strings.LastIndexByte", "bytes.IndexByte":
 		r := e.newSym("idxb")
